@@ -16,9 +16,9 @@ using namespace asmjit;
 enum Kind : uint8_t { K_NONE, K_GP8, K_GP16, K_GP32, K_GP64, K_MM, K_XMM, K_YMM, K_ZMM, K_KREG, K_MEM, K_IMM };
 enum Role : uint8_t { R_NONE, R_REG, R_RM, R_VVVV, R_IS4, R_OPREG, R_IMM };
 enum Enc : uint8_t { E_LEGACY, E_VEX, E_EVEX, E_XOP };
-enum : uint8_t { F_K = 1, F_Z = 2 };
+enum : uint8_t { F_K = 1, F_Z = 2, F_NOABS_ACC = 4 };
 
-struct Op { uint8_t kind, role; uint16_t size; };
+struct Op { uint8_t kind, role; uint16_t size; int16_t fixed; };  // fixed: -1 free; >= 0 required register id / immediate value; -2 sign-extended immediate
 struct Form {
   uint32_t inst;
   uint8_t enc, pp /*0 none,1=66,2=F3,3=F2*/, map /*legacy: 0 none,1=0F,2=0F38,3=0F3A; vex/evex mmmmm*/, opcode;
@@ -134,6 +134,13 @@ static Dec decode(const Form& f, const uint8_t* p, bool x64) {
 static inline bool is_vec(uint8_t k) { return k == K_XMM || k == K_YMM || k == K_ZMM; }
 
 // Does the decoded instruction denote form `f` with exactly the operands `g`?
+#if defined(VERIF_NATIVE)
+#include <stdio.h>
+#include <stdlib.h>
+#define CHK(...) do { if (!(__VA_ARGS__)) { ok = false; if (getenv("VERIF_DEBUG")) fprintf(stderr, "  mismatch[%d]: %s\n", __LINE__, #__VA_ARGS__); } } while (0)
+#else
+#define CHK(...) do { ok &= (__VA_ARGS__); } while (0)
+#endif
 static bool matches(const Form& f, const Dec& d, const Given& g, bool x64) {
   if (!d.ok) return false;
   bool ok = true;
@@ -141,27 +148,28 @@ static bool matches(const Form& f, const Dec& d, const Given& g, bool x64) {
   // --- prefixes / fixed fields
   if (f.enc == E_LEGACY) {
     bool want66 = f.pp == 1 || f.osize == 2;
-    ok &= d.p66 == want66;
-    ok &= d.pF3 == (f.pp == 2) && d.pF2 == (f.pp == 3);
-    ok &= !d.pF0;
+    CHK(d.p66 == want66);
+    CHK(d.pF3 == (f.pp == 2) && d.pF2 == (f.pp == 3));
+    CHK(!d.pF0);
     bool wantW = f.osize == 8 || f.w == 1;
-    ok &= d.W == (wantW ? 1u : 0u);
-    if (!x64) ok &= !d.has_rex;
+    CHK(d.W == (wantW ? 1u : 0u));
+    if (!x64) CHK(!d.has_rex);
     if ((d.opcode & (f.digit == -1 && !f.has_modrm ? 0xF8 : 0xFF)) != (f.opcode & (f.digit == -1 && !f.has_modrm ? 0xF8 : 0xFF))) ok = false;
   } else {
-    ok &= d.opcode == f.opcode;
-    ok &= d.pp == f.pp && d.map == f.map;
-    if (f.w != 2) ok &= d.W == f.w;
-    if (f.l != 3) ok &= d.L == f.l;
-    if (f.enc != E_EVEX) ok &= d.L <= 1;
+    CHK(d.opcode == f.opcode);
+    CHK(d.pp == f.pp && d.map == f.map);
+    if (f.w != 2) CHK(d.W == f.w);
+    if (f.l != 3) CHK(d.L == f.l);
+    if (f.enc != E_EVEX) { CHK(d.L <= 1); CHK(g.k == 0 && !g.z); }
     if (f.enc == E_EVEX) {
-      ok &= d.L != 3;
-      ok &= d.aaa == g.k && d.z == (g.z ? 1u : 0u) && d.b == 0;
-      if (!(f.flags & F_K)) ok &= d.aaa == 0;
+      CHK(d.L != 3);
+      CHK(d.aaa == g.k && d.z == (g.z ? 1u : 0u) && d.b == 0);
+      if (!(f.flags & F_K)) CHK(g.k == 0);
+      if (!(f.flags & F_Z)) CHK(!g.z);
     }
-    if (!x64) ok &= !d.R && !d.X && !d.B && !d.R2 && !(d.vvvv & 8) && !d.V2;
+    if (!x64) CHK(!d.R && !d.X && !d.B && !d.R2 && !(d.vvvv & 8) && !d.V2);
   }
-  if (!mem_present) ok &= !d.p67 && d.seg == 0;
+  if (!mem_present) CHK(!d.p67 && d.seg == 0);
   // --- operands
   bool vvvv_used = false;
   for (uint32_t k = 0; k < f.nops; k++) {
@@ -170,57 +178,66 @@ static bool matches(const Form& f, const Dec& d, const Given& g, bool x64) {
     switch (op.role) {
       case R_REG: {
         uint32_t got = ((d.modrm >> 3) & 7) | (d.R << 3) | (f.enc == E_EVEX && is_vec(op.kind) ? d.R2 << 4 : 0);
-        if (f.enc == E_EVEX && !is_vec(op.kind)) ok &= d.R2 == 0;
-        ok &= got == id;
+        if (f.enc == E_EVEX && !is_vec(op.kind)) CHK(d.R2 == 0);
+        CHK(got == id);
         break;
       }
       case R_RM: {
         if (op.kind == K_MEM) break;
-        ok &= (d.modrm >> 6) == 3;
+        CHK((d.modrm >> 6) == 3);
         uint32_t got = (d.modrm & 7) | (d.B << 3) | (f.enc == E_EVEX && is_vec(op.kind) ? d.X << 4 : 0);
-        if (!(f.enc == E_EVEX && is_vec(op.kind))) ok &= d.X == 0;
-        ok &= got == id;
+        if (!(f.enc == E_EVEX && is_vec(op.kind))) CHK(d.X == 0);
+        CHK(got == id);
         break;
       }
-      case R_VVVV: { vvvv_used = true; ok &= (d.vvvv | (d.V2 << 4)) == id; break; }
-      case R_IS4: { ok &= (d.is4 >> 4) == id && (x64 || !(d.is4 & 0x80)); break; }
-      case R_OPREG: { ok &= ((d.opcode & 7) | (d.B << 3)) == id; ok &= d.X == 0 && d.R == 0; break; }
+      case R_VVVV: { vvvv_used = true; CHK((d.vvvv | (d.V2 << 4)) == id); break; }
+      case R_IS4: { CHK((d.is4 >> 4) == id && (x64 || !(d.is4 & 0x80))); break; }
+      case R_OPREG: { CHK(((d.opcode & 7) | (d.B << 3)) == id); CHK(d.X == 0 && d.R == 0); break; }
       default: break;
     }
-    if (op.kind == K_GP8 && op.role != R_NONE) {
-      if (g.gp8_hi[k]) ok &= !d.has_rex;            // AH..BH cannot be encoded with REX
-      if (g.gp8_needs_rex[k]) ok &= d.has_rex;       // SPL..DIL need one
+    if (op.fixed >= 0) {
+      if (op.kind == K_IMM) CHK(g.imm == uint64_t(op.fixed));
+      else CHK(id == uint32_t(op.fixed) && !g.gp8_hi[k]);
+    }
+    if (op.kind == K_GP8) {
+      if (g.gp8_hi[k]) CHK(!d.has_rex);            // AH..BH cannot be encoded with REX
+      if (g.gp8_needs_rex[k]) CHK(d.has_rex);       // SPL..DIL need one
     }
   }
-  if (f.enc != E_LEGACY && !vvvv_used) ok &= d.vvvv == 0 && d.V2 == 0;
-  if (f.has_modrm && f.digit >= 0) { ok &= ((d.modrm >> 3) & 7) == uint32_t(f.digit); ok &= d.R == 0 && d.R2 == 0; }
+  if (f.enc != E_LEGACY && !vvvv_used) CHK(d.vvvv == 0 && d.V2 == 0);
+  if (f.has_modrm && f.digit >= 0) { CHK(((d.modrm >> 3) & 7) == uint32_t(f.digit)); CHK(d.R == 0 && d.R2 == 0); }
   // --- memory operand
   if (mem_present) {
     const MemX& m = g.mem;
     uint32_t mod = d.modrm >> 6, rm = d.modrm & 7;
-    ok &= mod != 3;
-    ok &= d.seg == m.seg;
-    ok &= d.p67 == (x64 ? m.addr32 : false);
+    CHK(mod != 3);
+    CHK(d.seg == m.seg);
+    CHK(d.p67 == (x64 ? m.addr32 : false));
     bool dbase, dindex = false, drip = false; uint32_t base = 0, index = 0, scale = 0;
     if (d.has_sib) {
       uint32_t sb = d.sib & 7, si = (d.sib >> 3) & 7; scale = d.sib >> 6;
       index = si | (d.X << 3); dindex = index != 4;
       base = sb | (d.B << 3); dbase = !(sb == 5 && mod == 0);
     } else {
-      ok &= d.X == 0 || f.enc == E_EVEX;  // X is ignored without SIB except that EVEX requires it set for non-VSIB? be lenient only for EVEX
+      CHK(d.X == 0);
       if (rm == 5 && mod == 0) { dbase = false; drip = x64; }
       else { dbase = true; base = rm | (d.B << 3); }
     }
-    ok &= drip == m.rip;
-    ok &= dbase == m.has_base; if (m.has_base) ok &= base == m.base;
-    ok &= dindex == m.has_index; if (m.has_index) ok &= index == m.index && scale == m.shift;
-    ok &= d.disp == int64_t(m.disp);
-    if (!dbase && !drip) ok &= d.disp_size == 4;
+    CHK(drip == m.rip);
+    CHK(dbase == m.has_base); if (m.has_base) CHK(base == m.base);
+    CHK(dindex == m.has_index); if (m.has_index) CHK(index == m.index && scale == m.shift);
+    CHK(d.disp == int64_t(m.disp));
+    if (!dbase && !drip) CHK(d.disp_size == 4);
   }
   // --- immediate
   if (f.imm_bytes) {
     uint64_t mask = f.imm_bytes >= 8 ? ~0ull : ((1ull << (8 * f.imm_bytes)) - 1);
-    ok &= d.imm == (g.imm & mask);
+    bool sext = false;
+    for (uint32_t k = 0; k < f.nops; k++) if (f.ops[k].kind == K_IMM && f.ops[k].fixed == -2) sext = true;
+    uint32_t sh = 64 - 8 * f.imm_bytes;
+    int64_t as_signed = f.imm_bytes >= 8 ? int64_t(d.imm) : (int64_t(d.imm << sh) >> sh);
+    if (sext) CHK(as_signed == int64_t(g.imm));                                   // the extension must reproduce the value given
+    else CHK(d.imm == (g.imm & mask) && (as_signed == int64_t(g.imm) || (g.imm & ~mask) == 0));  // fits the field, signed or unsigned
   }
   return ok;
 }
@@ -228,13 +245,15 @@ static bool matches(const Form& f, const Dec& d, const Given& g, bool x64) {
 // ---- symbolic operands for a form
 static inline uint32_t pick(uint32_t mask) { return nondet_u8() & mask; }
 
+// evex_split: 0 = whole group; 1 = only operands for which the encoder does not need EVEX; 2 = only those that need it
 template<bool X64>
-static void run_forms(const Form* forms, uint32_t nforms) {
+static void run_forms(const Form* forms, uint32_t nforms, int evex_split = 0) {
   const Form& f0 = forms[0];
   x86::Assembler* a = venv::make_asm(X64, true);
   Operand_ o[4]; Given g; memset(&g, 0, sizeof(g)); g.mem_index = -1;
   for (int i = 0; i < 4; i++) o[i].reset();
-  bool evex = f0.enc == E_EVEX;
+  bool evex = false; uint8_t kflags = 0;
+  for (uint32_t i = 0; i < nforms; i++) { evex |= forms[i].enc == E_EVEX; kflags |= forms[i].flags; }
   for (uint32_t k = 0; k < f0.nops; k++) {
     const Op& op = f0.ops[k];
     switch (op.kind) {
@@ -265,7 +284,7 @@ static void run_forms(const Form* forms, uint32_t nforms) {
           m.has_base = true; m.base = b; m.has_index = true; m.index = x; m.shift = sh;
           mem = (X64 && !m.addr32) ? x86::ptr(x86::gpq(b), x86::gpq(x), sh, m.disp) : x86::ptr(x86::gpd(b), x86::gpd(x), sh, m.disp);
         }
-        else if (shape == 2) { m.addr32 = false; mem = x86::ptr(uint64_t(int64_t(m.disp))); if (X64) mem.set_abs(); }
+        else if (shape == 2) { m.addr32 = false; mem = x86::ptr(X64 ? uint64_t(int64_t(m.disp)) : uint64_t(uint32_t(m.disp))); if (X64) mem.set_addr_type(x86::Mem::AddrType::kAbs); }
         else { V_ASSUME(X64); m.addr32 = false; m.rip = true; mem = x86::ptr(x86::rip, m.disp); }
         mem.set_size(op.size);
         if (m.seg) mem.set_segment(x86::SReg(m.seg));
@@ -273,7 +292,9 @@ static void run_forms(const Form* forms, uint32_t nforms) {
         break;
       }
       case K_IMM: {
-        uint32_t nb = op.size;
+        uint32_t nb = 0;
+        for (uint32_t i = 0; i < nforms; i++) if (forms[i].nops > k && forms[i].ops[k].kind == K_IMM && forms[i].ops[k].size > nb) nb = forms[i].ops[k].size;
+        if (nb == 0) nb = 1;   // only constant-immediate records (shift by 1): still offer any 8-bit value
         int64_t v = int64_t(nondet_u64());
         if (nb < 8) { uint32_t sh = 64 - 8 * nb; v = (v << sh) >> sh; }   // any value of that width, sign-extended
         g.imm = uint64_t(v); o[k] = Imm(v);
@@ -282,10 +303,21 @@ static void run_forms(const Form* forms, uint32_t nforms) {
       default: break;
     }
   }
-  if (f0.flags & F_K) {
+  if (kflags & F_NOABS_ACC) {   // moffs forms of mov (accumulator <-> absolute address) are outside the generated family
+    bool abs_mem = g.mem_index >= 0 && !g.mem.has_base && !g.mem.has_index && !g.mem.rip;
+    bool acc = false;
+    for (uint32_t k = 0; k < f0.nops; k++) if (f0.ops[k].kind >= K_GP8 && f0.ops[k].kind <= K_GP64 && g.reg_enc[k] == 0 && !g.gp8_hi[k]) acc = true;
+    V_ASSUME(!(abs_mem && acc));
+  }
+  if (kflags & F_K) {
     g.k = pick(7);
     if (g.k) a->_extra_reg.init(x86::k(g.k));
-    if ((f0.flags & F_Z) && g.k && nondet_bool()) { g.z = true; a->_inst_options |= InstOptions::kX86_ZMask; }
+    if ((kflags & F_Z) && g.k && nondet_bool()) { g.z = true; a->_inst_options |= InstOptions::kX86_ZMask; }
+  }
+  if (evex_split) {
+    bool needs_evex = g.k != 0;
+    for (uint32_t k = 0; k < f0.nops; k++) { if (f0.ops[k].kind == K_ZMM) needs_evex = true; if (is_vec(f0.ops[k].kind) && g.reg_enc[k] >= 16) needs_evex = true; }
+    V_ASSUME(needs_evex == (evex_split == 2));
   }
   Operand_ ext[3]; ext[0] = o[3]; ext[1].reset(); ext[2].reset();
   Error e = a->x86::Assembler::_emit(f0.inst, o[0], o[1], o[2], ext);
